@@ -13,13 +13,15 @@ import (
 func init() { Registry["C17"] = c17 }
 
 func c17(c *core.Ctx) map[string]interface{} {
-	c.Explanation = "Static placement/partition/size check of the identifier conversion helpers (C17). Decided: (R11.sib, shared) PlmnIDToNas digit placement incl. filler F iff the MNC has not 3 digits; (R17.snssai) SnssaiToNas emits length 1 then SST when SD is empty, length 4 then SST then the decoded SD otherwise, on every path; (R17.amf) AmfIdToNas: region = octet 0, set = octet1<<2 | octet2[7:6], pointer = octet2[5:0] - the three results partition the 24 bits; (R17.ip) IPAddressToNgap produces BIT STRINGs of exactly 32/128/160 bits holding 4/16/20 octets (IPv4 first) selected by which addresses are given, IPAddressToString has exactly the cases 32/128/160, reads the IPv4 part from octets 0..3 and the IPv6 part from octets 4..19 resp. 0..15, and every index into the address octets is either a constant below the case's octet count or dominated by `index < len(octets)`; (R17.pco) Marshal writes the 0x80 header and then, per container, ID, length, contents from the same three fields UnMarshal fills; UnMarshal's state machine reads ID (2 octets) / length (1) / contents (length) in that order, accounts 2/1/length consumed octets, appends each container exactly once - in the length state when the length is 0 (the input may end there), in the content state otherwise; the Add* helpers set LengthOfContents to the number of octets they append. NOT decided: the inverse laws as value equalities (net.IP formatting, hex decoding are trusted)."
+	c.Explanation = "Static placement/partition/size check of the identifier conversion helpers (C17). Decided: (R11.sib, shared) PlmnIDToNas digit placement incl. filler F iff the MNC has not 3 digits; (R17.snssai) SnssaiToNas emits length 1 then SST when SD is empty, length 4 then SST then the decoded SD otherwise, on every path; (R17.amf) AmfIdToNas: region = octet 0, set = octet1<<2 | octet2[7:6], pointer = octet2[5:0] - the three results partition the 24 bits; (R17.ip) IPAddressToNgap produces BIT STRINGs of exactly 32/128/160 bits holding 4/16/20 octets (IPv4 first) selected by which addresses are given, IPAddressToString has exactly the cases 32/128/160, reads the IPv4 part from octets 0..3 and the IPv6 part from octets 4..19 resp. 0..15, and every index into the address octets is either a constant below the case's octet count or dominated by `index < len(octets)`; (R17.pco) Marshal writes the 0x80 header and then, per container, ID, length, contents from the same three fields UnMarshal fills; UnMarshal's state machine reads ID (2 octets) / length (1) / contents (length) in that order, accounts 2/1/length consumed octets, appends each container exactly once - in the length state when the length is 0 (the input may end there), in the content state otherwise; the Add* helpers set LengthOfContents to the number of octets they append. (R17.snssai-ctor) the emulator's own S-NSSAI IEs are built with length 4 and the SD octets (or length 1 exactly when the SD string is empty); (R9.acc.*) the bit-field accessors of the NAS IE value types (GUTI/TMSI AMF-ID fields among them) as in C09. NOT decided: the inverse laws as value equalities (net.IP formatting, hex decoding are trusted)."
 	c.Assumptions = []string{"net.ParseIP/To4/To16, net.IP.String and encoding/hex are correct", "a BIT STRING value of n bits carries ceil(n/8) octets (guaranteed by the decoder, C14/C03)"}
 	r11sib(c)
 	r17snssai(c)
 	r17amf(c)
 	r17ip(c)
 	r17pco(c)
+	r17snssaiCtor(c)
+	r9acc(c)
 	return nil
 }
 
@@ -521,4 +523,70 @@ func innerCond(p *core.Pather, b *ssa.BasicBlock, field string) string {
 		}
 	}
 	return ""
+}
+
+// r17snssaiCtor: the emulator's own S-NSSAI IEs (UL NAS TRANSPORT constructors of
+// nasTestpacket). TS 24.501 9.11.2.8: length 1 = SST only, length 4 = SST and SD.
+// Whether an SD is present is a property of the model value (its SD string is
+// empty or not), never of the SD's numeric value: SD 000000 is a slice
+// differentiator like any other and must be sent with length 4.
+func r17snssaiCtor(c *core.Ctx) {
+	const R = "R17.snssai-ctor"
+	c.Rule(R, "nasTestpacket: every S-NSSAI IE is built with length 4 and the SD octets, or with length 1 exactly when the model's SD string is empty")
+	sp := c.P.SSAPkg(pNasTP)
+	if sp == nil {
+		c.Undecided("package %s not loaded", pNasTP)
+	}
+	n := 0
+	for _, f := range allFuncsOf(sp) {
+		p := core.NewPather(f)
+		calls := core.CallsTo(f, pNasT+".SNSSAI.SetLen")
+		ord := ordinals{}
+		for _, ci := range calls {
+			n++
+			key := "nasTestpacket." + f.Name() + ":" + ord.next("SNSSAI.SetLen")
+			k, isK := core.ConstInt(ci.Common().Args[1])
+			if !isK {
+				c.SoftUndecided("%s: S-NSSAI length is not a constant (%s)", f.Name(), clip(p.Path(ci.Common().Args[1])))
+				continue
+			}
+			var sdConds []string
+			for _, cnd := range dominatingConds(p, ci.Block()) {
+				if strings.Contains(cnd, "!=nil)") || strings.Contains(cnd, "==nil)") {
+					continue
+				}
+				sdConds = append(sdConds, cnd)
+			}
+			emptyT := func(s string) bool {
+				return strings.HasSuffix(s, `.Sd=="")=T`) || strings.HasSuffix(s, `.Sd!="")=F`) || strings.HasSuffix(s, `.Sd)==0)=T`) || strings.HasSuffix(s, `.Sd)!=0)=F`) || strings.HasSuffix(s, `.Sd)>0)=F`)
+			}
+			emptyF := func(s string) bool {
+				return strings.HasSuffix(s, `.Sd=="")=F`) || strings.HasSuffix(s, `.Sd!="")=T`) || strings.HasSuffix(s, `.Sd)==0)=F`) || strings.HasSuffix(s, `.Sd)!=0)=T`) || strings.HasSuffix(s, `.Sd)>0)=T`)
+			}
+			hasSD := false
+			recv := p.Path(ci.Common().Args[0])
+			for _, o := range core.CallsTo(f, pNasT+".SNSSAI.SetSD") {
+				if p.Path(o.Common().Args[0]) == recv && (o.Block() == ci.Block() || ci.Block().Dominates(o.Block()) || o.Block().Dominates(ci.Block())) {
+					hasSD = true
+				}
+			}
+			switch {
+			case k == 4 && hasSD && len(sdConds) == 0:
+				c.Ok(R, key, ci.Pos(), "length 4 with SD, unconditionally")
+			case k == 4 && hasSD && len(sdConds) == 1 && emptyF(sdConds[0]):
+				c.Ok(R, key, ci.Pos(), "length 4 with SD when the SD string is not empty")
+			case k == 1 && !hasSD && len(sdConds) == 1 && emptyT(sdConds[0]):
+				c.Ok(R, key, ci.Pos(), "length 1 when the SD string is empty")
+			case k != 1 && k != 4:
+				c.Fail(R, key, ci.Pos(), "S-NSSAI length %d: the emulator's S-NSSAI is SST (1) or SST+SD (4)", k)
+			case k == 4 && !hasSD:
+				c.Fail(R, key, ci.Pos(), "S-NSSAI announced with length 4 but the SD octets are not set on this path")
+			default:
+				c.Fail(R, key, ci.Pos(), "S-NSSAI length %d is chosen under %v: the presence of an SD must be decided on the model's SD string being empty, not on its value (SD 000000 would be sent as SST-only and no longer decodes to the configured slice)", k, sdConds)
+			}
+		}
+	}
+	if n < 1 {
+		c.Undecided("R17.snssai-ctor: no S-NSSAI construction found in nasTestpacket (expected 3)")
+	}
 }
